@@ -65,6 +65,7 @@ type gateCase struct {
 	pos   int // position carrying the probed dtype (-1: none)
 	dt    int // index into gen.All14 (for pos >= 0)
 	nilAt int // optional position supplied as nil (-1: none)
+	empty bool // the probe tensor has zero elements (shape (0)): the gate looks at types, not at sizes
 }
 
 // c15Enumerate lists the complete finite space of the property.
@@ -85,6 +86,7 @@ func c15Enumerate() []gateCase {
 						continue
 					}
 					out = append(out, gateCase{op: name, n: n, pos: pos, dt: d, nilAt: -1})
+					out = append(out, gateCase{op: name, n: n, pos: pos, dt: d, nilAt: -1, empty: true})
 					// ... combined with nil at every optional position (an omitted input in
 					// the middle of the list must not switch the type check off for later ones)
 					for nilAt := ar[0]; nilAt < n; nilAt++ {
@@ -118,7 +120,7 @@ func init() {
 		},
 		Run:            c15Run,
 		Floor:          func(tier string) int { return 5000 },
-		Rule:           "complete enumeration: 55 operators x input count 0..max+2 (Concat 0..12) x each of the 14 ONNX element types and of 3 gorgonia element types that are not ONNX types (int, uint, uintptr) at each supplied position (other positions carry an allowed type) x nil at each optional position (alone and combined with every type probe at every other position); every second list is a prefix of a larger array with other tensors behind its length, through Operator.ValidateInputs of a fresh instance from opset13.GetOperator; arities cross-checked against an independent table typed in from the ONNX spec. Then 400 registry cases: every name resolves, repeated lookups are state-independent (a fresh instance prints identically before and after another instance of the same name was Init-ed with non-default attributes and applied), foreign names yield ErrUnsupportedOperator; and single-node models observed through the operator proxy: a rejected gate is never followed by an apply event. A gate case is non-trivial when it is rejected or pads optional inputs; distinct = distinct (op, count, position, dtype, nil position).",
+		Rule:           "complete enumeration: 55 operators x input count 0..max+2 (Concat 0..12) x each of the 14 ONNX element types and of 3 gorgonia element types that are not ONNX types (int, uint, uintptr), each probe also as a tensor with zero elements at each supplied position (other positions carry an allowed type) x nil at each optional position (alone and combined with every type probe at every other position); every second list is a prefix of a larger array with other tensors behind its length, through Operator.ValidateInputs of a fresh instance from opset13.GetOperator; arities cross-checked against an independent table typed in from the ONNX spec. Then 400 registry cases: every name resolves, repeated lookups are state-independent (a fresh instance prints identically before and after another instance of the same name was Init-ed with non-default attributes and applied), foreign names yield ErrUnsupportedOperator; and single-node models observed through the operator proxy: a rejected gate is never followed by an apply event. A gate case is non-trivial when it is rejected or pads optional inputs; distinct = distinct (op, count, position, dtype, nil position).",
 		Exhaustive:     func(tier string) bool { return true },
 		RaceInThorough: true,
 		Technique:      "runtime monitoring: exhaustive enumeration of the finite gate space against the operators' declared constraints and an independent ONNX arity table; proxy trace check 'no apply after a failed validate'",
@@ -138,7 +140,7 @@ func c15Run(c *Ctx) {
 		idx = (c.Idx*4 + int(c.Seed%4)) % len(c15Space)
 	}
 	gc := c15Space[idx]
-	c.SetCase("gate %s: %d inputs, dtype %v at position %d, nil at %d", gc.op, gc.n, gateDtypeName(gc.dt), gc.pos, gc.nilAt)
+	c.SetCase("gate %s: %d inputs, dtype %v at position %d (zero elements: %v), nil at %d", gc.op, gc.n, gateDtypeName(gc.dt), gc.pos, gc.empty, gc.nilAt)
 	o := mon.Capture(nil, func() ([]tensor.Tensor, error) { return nil, c15Gate(c, gc) })
 	if o.Kind == mon.Panic {
 		c.Violation("gate:"+gc.op+":panic", "input gate panicked: %s", o.Describe())
@@ -223,7 +225,11 @@ func c15Gate(c *Ctx, gc gateCase) error {
 			in[i] = tensor.New(tensor.WithShape(2), tensor.WithBacking([]uintptr{1, 2}))
 		default:
 			rd, _ := mon.RefDtype(d)
-			in[i] = mon.ToTensor(c.R.Tensor(rd, []int{2}, gen.FillUnique, 0))
+			shape := []int{2}
+			if gc.empty && i == gc.pos {
+				shape = []int{0}
+			}
+			in[i] = mon.ToTensor(c.R.Tensor(rd, shape, gen.FillUnique, 0))
 		}
 		if (!variadic && i < max || variadic) && !allowedAt(i, d) {
 			expectTypeErr = true
@@ -251,7 +257,7 @@ func c15Gate(c *Ctx, gc gateCase) error {
 	}
 	expectCountErr := gc.n < ar[0] || (!variadic && gc.n > ar[1])
 	out, verr := op.ValidateInputs(in)
-	desc := fmt.Sprintf("%s|%d|%d|%d|%d", gc.op, gc.n, gc.pos, gc.dt, gc.nilAt)
+	desc := fmt.Sprintf("%s|%d|%d|%d|%d|%v", gc.op, gc.n, gc.pos, gc.dt, gc.nilAt, gc.empty)
 	if expectCountErr || expectTypeErr || gc.n < effMax {
 		c.Nontrivial(desc)
 	}
@@ -517,7 +523,8 @@ func c15ForeignModel(c *Ctx, name string) {
 	}
 	foreign := mon.GNode{Op: name, Inputs: []string{"a"}, Outputs: []string{"b"}}
 	var nodes []mon.GNode
-	layout := r.Intn(8)
+	clash := ""
+	layout := r.Intn(11)
 	desc := ""
 	switch layout {
 	case 0: // in the middle of a chain
@@ -538,9 +545,19 @@ func c15ForeignModel(c *Ctx, name string) {
 		nodes, desc = []mon.GNode{relu("x", "a"), foreign, relu("a", "y")}, "node with only omitted (\"\") outputs"
 	case 6: // listed last, after every graph output has been computed, result unused
 		nodes, desc = []mon.GNode{relu("x", "a"), relu("a", "y"), foreign}, "trailing dead node"
-	default: // listed last, consuming the graph output
+	case 7: // listed last, consuming the graph output
 		foreign.Inputs = []string{"y"}
 		nodes, desc = []mon.GNode{relu("x", "a"), relu("a", "y"), foreign}, "trailing consumer of the graph output"
+	case 8: // its output name is also the name of an initializer
+		clash = "initializer"
+		nodes, desc = []mon.GNode{relu("x", "a"), foreign, relu("b", "y")}, "output named like an initializer"
+	case 9: // its output name is also the name of a graph input (a tensor the caller supplies)
+		foreign.Outputs = []string{"x2"}
+		clash = "input"
+		nodes, desc = []mon.GNode{relu("x", "a"), foreign, relu("x2", "y")}, "output named like a graph input"
+	default: // its output name was already written by an earlier node
+		foreign.Outputs = []string{"a"}
+		nodes, desc = []mon.GNode{relu("x", "a"), foreign, relu("a", "y")}, "output named like an earlier node's output"
 	}
 	if r.Chance(0.3) { // no inputs either / a skipped input
 		for i := range nodes {
@@ -561,8 +578,16 @@ func c15ForeignModel(c *Ctx, name string) {
 		Nodes:   nodes,
 		Outputs: []mon.GInput{{Name: "y", NoType: true}},
 	}
+	feed := map[string]*ref.T{"x": x}
+	switch clash {
+	case "initializer":
+		g.Inits = append(g.Inits, mon.GInit{Name: "b", T: r.Tensor(ref.F32, []int{2, 3}, gen.FillSmall, 4)})
+	case "input":
+		g.Inputs = append(g.Inputs, mon.GInput{Name: "x2", DT: ref.F32, Dims: mon.FixedDims(x.Shape)})
+		feed["x2"] = r.Tensor(ref.F32, []int{2, 3}, gen.FillSmall, 4)
+	}
 	c.Count("foreign-op-layout:"+desc[:minInt(len(desc), 30)], 1)
-	tr := mon.RunGraphTraced(g, map[string]*ref.T{"x": x}, nil)
+	tr := mon.RunGraphTraced(g, feed, nil)
 	c.Eval(1)
 	switch {
 	case tr.Outcome.Kind == mon.Panic:
